@@ -22,3 +22,26 @@ PROPS = {
     'C19': {'units': ['directory', 'tile_manager', 'pmtiles'], 'witness': 'C19'},
     'C20': {'units': ['pmtiles', 'tile_manager', 'read_directories', 'directory', 'header'], 'witness': 'C20'},
 }
+
+
+def _close_units():
+    """A unit that uses `//@stub <unit> <fn>` declarations relies on contracts proved in <unit>: the check of a property runs the
+    closure, so that a clause of a depended-on contract that carries the property's tag and fails is reported for the property."""
+    import glob, os, re
+    here = os.path.dirname(os.path.dirname(os.path.abspath(__file__)))
+    deps = {}
+    for f in glob.glob(os.path.join(here, 'units', '*.vrs')):
+        deps[os.path.basename(f)[:-4]] = sorted({m.group(1) for m in re.finditer(r'^//@stub (\w+) ', open(f).read(), re.M)})
+    for cfg in PROPS.values():
+        us = list(cfg.get('units', []))
+        cfg['primary_units'] = list(us)
+        k = 0
+        while k < len(us):
+            for d in deps.get(us[k], []):
+                if d not in us:
+                    us.append(d)
+            k += 1
+        cfg['units'] = us
+
+
+_close_units()
